@@ -67,7 +67,8 @@ THEOREMS = [
     "PV.Prog.import_level_spec",
     "PV.Prog.annassign_simple_spec",
     "PV.Prog.annassign_bare_name",
-    "PV.Prog.annassign_paren_name_simple",
+    "PV.Prog.annassign_paren_not_simple",
+    "PV.Prog.annassign_paren_name_not_simple",
     # (e) printer round trip on a fragment
     "PV.Prog.render_parse_partial",
 ]
